@@ -233,7 +233,12 @@ func c02Build(c c02Case) (c02Pkt, bool) {
 	if k.af.ContentLen() > c.AFLen {
 		return k, false
 	}
-	if c.AFLen == 183 {
+	if c.AFLen == 183 && c.Fill == 1 {
+		// degenerate but handled: both flags set and an adaptation field that leaves no room, i.e. a payload
+		// of zero bytes (SetPayload then shrinks the field as far as its content allows)
+		k.h.AFC = 3
+		k.pay = []byte{}
+	} else if c.AFLen == 183 {
 		k.h.AFC = 2
 		k.pay = nil
 	} else {
@@ -307,6 +312,8 @@ func c02Check(c c02Case) engine.Result {
 		class = "payload-only"
 	case k.afLen == 0:
 		class = "adaptation-field,len=0"
+	case k.afLen == 183 && k.pay != nil:
+		class = "adaptation-field,len=183,zero-length-payload"
 	case k.afLen == 183:
 		class = "adaptation-field-only"
 	}
@@ -615,7 +622,7 @@ func init() {
 		Scenarios: []engine.ScenarioRunner{
 			&engine.Enum[c02Case]{
 				Name: "setpayload",
-				Rule: "case = well-formed packet shape: adaptation field none / length 0..182 with payload / 183 adaptation-field-only x optional-field combination (all 32 presence subsets x private/extension lengths {0,1,3} that fit, plus near-maximal private data / extension leaving 0..6 bytes of room in the packet) x header pattern x old-payload fill (quick: 4 paired header/fill patterns; thorough: all 16); Check runs the partition accessors on the packet, SetPayload with every length 0..200 x 2 contents (exact reference packet, count, partition/read-back, independence of the method-form copy) and a second SetPayload of 8 boundary lengths on 7 of the results",
+				Rule: "case = well-formed packet shape: adaptation field none / length 0..182 with payload / 183 adaptation-field-only / 183 with the payload flag and a zero-length payload x optional-field combination (all 32 presence subsets x private/extension lengths {0,1,3} that fit, plus near-maximal private data / extension leaving 0..6 bytes of room in the packet) x header pattern x old-payload fill (quick: 4 paired header/fill patterns; thorough: all 16); Check runs the partition accessors on the packet, SetPayload with every length 0..200 x 2 contents (exact reference packet, count, partition/read-back, independence of the method-form copy) and a second SetPayload of 8 boundary lengths on 7 of the results",
 				Gen: func(r *engine.Run, emit func(c02Case)) {
 					for afLen := -1; afLen <= 183; afLen++ {
 						for combo := range c02Combos {
